@@ -47,6 +47,8 @@ pub fn spaces(label: &str) -> Vec<(String,Vec<(Addr,usize)>,Vec<Addr>)> {
         let mut invalid = vec![Addr::Sec(g.cyls(),0,g.id_base),Addr::Sec(0,g.heads,g.id_base),Addr::Sec(0,0,g.id_base+z0.spt),
                            Addr::Sec(g.cyls()-1,0,g.id_base+zl.spt),Addr::Sec(g.cyls()+40,0,g.id_base),Addr::Sec(0,0,255)];
         if g.id_base>0 { invalid.push(Addr::Sec(0,0,g.id_base-1)); }
+        // numbers that only fit the address after losing their upper bits
+        invalid.append(&mut vec![Addr::Sec(0,0,256+g.id_base),Addr::Sec(1,0,256+g.id_base+1),Addr::Sec(0,0,512+g.id_base+3),Addr::Sec(0,0,65536+g.id_base),Addr::Sec(256,0,g.id_base)]);
         ans.push(("sec".to_string(),valid,invalid));
     }
     let a2_16 = kname=="5.25in";
@@ -55,17 +57,21 @@ pub fn spaces(label: &str) -> Vec<(String,Vec<(Addr,usize)>,Vec<Addr>)> {
     if a2_16 && typ!="po" && typ!="2mg-po" {
         let mut v = Vec::new();
         for t in 0..35 { for s in 0..16 { v.push((Addr::DO(t,s),256)); } }
-        ans.push(("do".to_string(),v,vec![Addr::DO(35,0),Addr::DO(0,16),Addr::DO(34,16),Addr::DO(200,3)]));
+        ans.push(("do".to_string(),v,vec![Addr::DO(35,0),Addr::DO(0,16),Addr::DO(34,16),Addr::DO(200,3),Addr::DO(0,256),Addr::DO(291,0),Addr::D13(5,1),Addr::D13(0,12)]));
     }
     if a2_13 {
         let mut v = Vec::new();
         for t in 0..35 { for s in 0..13 { v.push((Addr::D13(t,s),256)); } }
-        ans.push(("d13".to_string(),v,vec![Addr::D13(35,0),Addr::D13(0,13),Addr::D13(34,13),Addr::D13(200,3)]));
+        // (also: sector numbers that wrap, and the address forms of other disk kinds)
+        ans.push(("d13".to_string(),v,vec![Addr::D13(35,0),Addr::D13(0,13),Addr::D13(34,13),Addr::D13(200,3),Addr::D13(0,256),Addr::D13(5,256+4),Addr::D13(291,0),
+                                           Addr::DO(5,4),Addr::DO(5,13),Addr::PO(10),Addr::CPM(1,3,3)]));
     }
     if a2_16 || a2_35 || kname=="hdmax" {
         let n = g.capacity()/512;
         let v: Vec<(Addr,usize)> = (0..n).map(|b| (Addr::PO(b),512)).collect();
-        ans.push(("po".to_string(),v,vec![Addr::PO(n),Addr::PO(n+7),Addr::PO(70000)]));
+        let mut inv = vec![Addr::PO(n),Addr::PO(n+7),Addr::PO(70000)];
+        if a2_35 && typ!="po" && typ!="2mg-po" { inv.append(&mut vec![Addr::DO(1,1),Addr::D13(1,1),Addr::CPM(1,3,3)]); }
+        ans.push(("po".to_string(),v,inv));
     }
     if a2_16 && typ!="po" && typ!="2mg-po" {
         // Apple CP/M: 1K blocks, 3 reserved tracks, 128 blocks
@@ -76,14 +82,15 @@ pub fn spaces(label: &str) -> Vec<(String,Vec<(Addr,usize)>,Vec<Addr>)> {
         let total = g.capacity()/512;
         for n in [1usize,2] {
             let v: Vec<(Addr,usize)> = (0..total/n).map(|i| (Addr::FAT((i*n) as u64,n as u8),512*n)).collect();
-            ans.push((format!("fat{}",n),v,vec![Addr::FAT(total as u64,n as u8),Addr::FAT((total+100) as u64,n as u8)]));
+            // (a block that starts on the last sector and runs beyond the end is no valid address either)
+            ans.push((format!("fat{}",n),v,vec![Addr::FAT(total as u64,n as u8),Addr::FAT((total+100) as u64,n as u8),Addr::FAT((total-1) as u64,(n+1) as u8)]));
         }
     }
     if (typ=="imd" || typ=="td0") && !kname.contains("ibm") {
         let dpb = a2kit::bios::dpb::DiskParameterBlock::create(&kind_of(kname));
         let n = dpb.dsm as usize + 1;
         let v: Vec<(Addr,usize)> = (0..n).map(|b| (Addr::CPM(b,dpb.bsh,dpb.off),128usize << dpb.bsh)).collect();
-        ans.push(("cpm".to_string(),v,vec![Addr::CPM(n+200,dpb.bsh,dpb.off),Addr::CPM(60000,dpb.bsh,dpb.off)]));
+        ans.push(("cpm".to_string(),v,vec![Addr::CPM(n,dpb.bsh,dpb.off),Addr::CPM(n+1,dpb.bsh,dpb.off),Addr::CPM(n+200,dpb.bsh,dpb.off),Addr::CPM(60000,dpb.bsh,dpb.off)]));
     }
     ans
 }
@@ -115,8 +122,14 @@ pub fn run(toks: &[&str]) -> String {
             // invalid address: must be refused by an error return, and change nothing
             let a = invalid[rng.below(invalid.len())];
             ninv += 1;
-            let r = if rng.below(2)==0 { rd(&mut img,a).map(|_| ()) } else { wr(&mut img,a,&rng.bytes(64)) };
+            // the last addresses of the space, where a unit that runs beyond the end would land
+            let tail: Vec<(Addr,usize)> = valid[valid.len().saturating_sub(48)..].to_vec();
+            let before: Vec<Option<Vec<u8>>> = tail.iter().map(|(t,_)| rd(&mut img,*t).ok()).collect();
+            let r = if rng.below(2)==0 { rd(&mut img,a).map(|_| ()) } else { wr(&mut img,a,&rng.bytes(2100)) };
             if r.is_ok() { return format!("FAIL op {} space {} invalid address {:?} accepted",op,sname,a); }
+            for (i,(t,_)) in tail.iter().enumerate() {
+                if rd(&mut img,*t).ok()!=before[i] { return format!("FAIL op {} space {} invalid address {:?} was refused but {:?} changed",op,sname,a,t); }
+            }
         } else {
             // bias toward a small working set so overwrites and neighbours are exercised
             let (a,unit) = if !touched.is_empty() && rng.below(3)==0 { touched[rng.below(touched.len())] }
